@@ -197,6 +197,13 @@ func loopAround(fn *ssa.Function, in ssa.Instruction) (ir.IfInfo, bool) {
 		body := ir.EdgePt(ii.If.Block(), ii.EdgeWhen(true))
 		res := ir.Reach([]ir.Pt{body}, ir.Opts{Stop: func(x ssa.Instruction) bool { return x == ssa.Instruction(ii.If) }})
 		if res.Reached[in] && res.Stopped[ii.If] {
+			// `in` is part of the cycle: it can come back to the loop test (an inner loop of an *earlier* loop reaches
+			// `in` by falling out of both, and its own test again through the outer one — but never from `in`)
+			if _, isIf := in.(*ssa.If); !isIf {
+				if !ir.Reach([]ir.Pt{ir.After(in)}, ir.Opts{}).Reached[ii.If] {
+					continue
+				}
+			}
 			cands = append(cands, ii)
 		}
 	}
@@ -636,8 +643,15 @@ func ruleDedupeKeepsOne(r *core.Reporter) {
 		r.Violated("DedupeItems/all-nodes", p.InstrPos(lk), "the de-duplication loop can leave before all nodes were examined")
 	}
 	mcAfter := false
+	mcFn := p.Func(rel(pkgModels), "markCompleted") // follows a function ↔ method conversion
 	allInstrs(fn, func(in ssa.Instruction) {
-		if ir.IsPlainCallTo(in, pkgModels+".markCompleted") && !ir.Reach([]ir.Pt{ir.After(in)}, ir.Opts{}).Reached[lk] {
+		isMC := ir.IsPlainCallTo(in, pkgModels+".markCompleted")
+		if cc := ir.AsCall(in); cc != nil && mcFn != nil && cc.StaticCallee() == mcFn {
+			if _, isCall := in.(*ssa.Call); isCall {
+				isMC = true
+			}
+		}
+		if isMC && !ir.Reach([]ir.Pt{ir.After(in)}, ir.Opts{}).Reached[lk] {
 			mcAfter = true
 		}
 	})
